@@ -254,16 +254,19 @@ def shards(tier):
                 if tier == 'quick':
                     out.append(dict(name=f'hist2/pers={pers},t0={t0},via={via}', harness='hist2', fixed=dict(pers=pers, t0=t0, via_comm=via), budget_s=400))
                 else:
-                    for t1 in range(4):
-                        out.append(dict(name=f'hist3/pers={pers},t0={t0},t1={t1},via={via}', harness='hist3',
-                                        fixed=dict(pers=pers, t0=t0, t1=t1, via_comm=via), budget_s=3000))
+                    out.append(dict(name=f'hist2/pers={pers},t0={t0},via={via}', harness='hist2', fixed=dict(pers=pers, t0=t0, via_comm=via), budget_s=900))
+                    if not via:
+                        for t1 in range(4):
+                            # third task: a continue (the task kind that depends on the history), of the finishing class
+                            out.append(dict(name=f'hist3/pers={pers},t0={t0},t1={t1}', harness='hist3',
+                                            fixed=dict(pers=pers, t0=t0, t1=t1, via_comm=False, t2=CONTINUE, p2=False, c2=0, c1=0), budget_s=3000))
     return out
 
 
 BOUNDS = {
     'quick': dict(history='2 tasks over create/launch/continue/unknown with symbolic persist, nowait, tag, class (finishing / failing), input x symbolic int (concrete with the pickle persister)',
                   persister='none / in-memory / pickle', loader='default or recording custom loader, with and without an explicit load_context', transport='awaiting ProcessLauncher.__call__ directly and task_send through LoopCommunicator(LocalCommunicator)'),
-    'thorough': dict(history='3 tasks', persister='as quick', loader='as quick', transport='as quick'),
+    'thorough': dict(history='2 tasks as quick; 3 tasks where the third is a continue task (direct transport)', persister='as quick', loader='as quick', transport='as quick'),
 }
 OUTSIDE = ['RabbitMQ', 'launched processes that wait for external input', 'histories longer than the bound', 'no_reply tasks']
 RULE = 'paths over (persister, loader, transport, task history with flags); non-trivial when the whole history was checked against the statement'
